@@ -1432,13 +1432,13 @@ class HttpHeaderFieldValueSetCookie(FieldValueBase):  # pylint: disable=too-many
         default=None
     )
     secure = attr.ib(
-        converter=attr.converters.optional(HttpHeaderFieldValueSetCookieParamSecure.convert),
-        validator=attr.validators.optional(attr.validators.instance_of(HttpHeaderFieldValueSetCookieParamSecure)),
+        converter=HttpHeaderFieldValueSetCookieParamSecure.convert,
+        validator=attr.validators.instance_of(HttpHeaderFieldValueSetCookieParamSecure),
         default=attr.Factory(lambda: HttpHeaderFieldValueSetCookieParamSecure(False))
     )
     http_only = attr.ib(
-        converter=attr.converters.optional(HttpHeaderFieldValueSetCookieParamHttpOnly.convert),
-        validator=attr.validators.optional(attr.validators.instance_of(HttpHeaderFieldValueSetCookieParamHttpOnly)),
+        converter=HttpHeaderFieldValueSetCookieParamHttpOnly.convert,
+        validator=attr.validators.instance_of(HttpHeaderFieldValueSetCookieParamHttpOnly),
         default=attr.Factory(lambda: HttpHeaderFieldValueSetCookieParamHttpOnly(False))
     )
     same_site = attr.ib(
